@@ -17,7 +17,7 @@ EXPLANATION = (
     "size assert precedes returning the string. NOT decided: foreign output containing '}' after a report on the same line; "
     "numeric equality of converted numpy scalars.")
 
-FLOOR = {"S1": 5, "S2": 2, "S3": 2, "S4": 3, "S5": 2}
+FLOOR = {"S1": 5, "S2": 3, "S3": 2, "S4": 3, "S5": 2}
 
 
 def fold_str(ctx, f, e):
@@ -147,6 +147,13 @@ def s2(ctx, rep):
     rep.put(not bad, "S2", "agreement", "dump_json_with_numpy: JSON text without indent (single line)", dj, dumps[0],
             "json.dumps(..., default=...) - JSON text contains no raw newline",
             "json.dumps is called with indent: a report spans several lines and the line-based parser drops it")
+    bad2 = [d for d in dumps if kwarg(d, "ensure_ascii") is not None and not (isinstance(kwarg(d, "ensure_ascii"), ast.Constant)
+                                                                             and kwarg(d, "ensure_ascii").value is True)]
+    rep.put(not bad2, "S2", "agreement", "dump_json_with_numpy: the JSON text is pure ASCII (ensure_ascii not disabled)", dj, bad2[0] if bad2 else dumps[0],
+            "non-ASCII characters are written as \\uXXXX escapes",
+            "json.dumps(..., ensure_ascii=False) writes raw non-ASCII characters into the report line: the size limit is then measured on a "
+            "wide string (one such character multiplies sys.getsizeof), and printing depends on the stdout encoding - a valid report is "
+            "rejected or raises UnicodeEncodeError")
     w = P.func("syne_tune.report._report_logger")
     pr = [x for x in walk_shallow(w.node) if isinstance(x, ast.Call) and isinstance(x.func, ast.Name) and x.func.id == "print"]
     ok = len(pr) == 1 and kwarg(pr[0], "end") is None and kwarg(pr[0], "file") is None and len(pr[0].args) == 1
